@@ -7,7 +7,7 @@ import (
 // Families lists the family names in the order of their weights.
 var Families = []string{"typedecl", "generic", "chain", "stmts", "callgraph", "printf", "docs", "api", "typeuse"}
 
-var familyWeights = map[string]int{"typedecl": 2, "generic": 6, "chain": 5, "stmts": 4, "callgraph": 3, "printf": 4, "docs": 2, "api": 6, "typeuse": 3}
+var familyWeights = map[string]int{"typedecl": 2, "generic": 6, "chain": 5, "stmts": 4, "callgraph": 3, "printf": 5, "docs": 2, "api": 6, "typeuse": 3}
 
 // Generate draws a package.
 func Generate(t *rapid.T, name string, cfg Config) *Package {
